@@ -34,10 +34,61 @@ STUB = ['replica histories (construction routes and read-only operations)']
 ROUTES = ['canonical', 'permuted', 'permuted', 'defaults-explicit', 'defaults-implicit', 'native-args',
           'decoded:ber', 'decoded:ber-indef', 'decoded:ber-chunk:2', 'decoded:ber-indef-chunk:3', 'decoded:der', 'decoded:cer',
           'clone']
-READS = ['der', 'cer', 'ber', 'prettyPrint', 'str', 'iter', 'eq', 'len', 'in', 'isValue', 'values']
+READS = ['der', 'cer', 'ber', 'prettyPrint', 'str', 'iter', 'eq', 'len', 'in', 'isValue', 'values', 'getitem', 'getitem', 'items', 'deep_read']
+
+
+def _P(k, **kw):
+    d = {'k': k, 'tags': []}
+    d.update(kw)
+    return d
+
+
+# the shapes the property text calls out, as a small hand-written catalogue (DESIGN.md section 2)
+CATALOGUE = [
+    (_P('SEQ', fields=[{'n': 'id', 'd': _P('INTEGER'), 'opt': 'R'},
+                       {'n': 'path', 'd': _P('SEQOF', of=_P('INTEGER')), 'opt': 'D', 'dv': [1, 2]}]),
+     [{'id': 7}, {'id': 7, 'path': [1, 2]}, {'id': 7, 'path': [2, 1]}, {'id': 7, 'path': [1, 2, 3]}, {'id': 7, 'path': []}]),
+    (_P('SET', fields=[{'n': 'id', 'd': _P('INTEGER'), 'opt': 'R'},
+                       {'n': 'names', 'd': _P('SEQOF', of=_P('OCTETSTRING'), tags=[['I', 'C', 0]]), 'opt': 'D', 'dv': ['61', '', '62']}]),
+     [{'id': 0}, {'id': 0, 'names': ['61', '', '62']}, {'id': 0, 'names': ['62', '', '61']}, {'id': 0, 'names': ['61']}]),
+    (_P('SEQ', fields=[{'n': 'a', 'd': _P('BOOLEAN'), 'opt': 'D', 'dv': True},
+                       {'n': 'b', 'd': _P('INTEGER'), 'opt': 'D', 'dv': 5},
+                       {'n': 'c', 'd': _P('OCTETSTRING'), 'opt': 'D', 'dv': '6162'},
+                       {'n': 'e', 'd': _P('ENUMERATED', named=[['x', 0], ['y', 1]]), 'opt': 'D', 'dv': 1},
+                       {'n': 'n', 'd': _P('NULL'), 'opt': 'O'},
+                       {'n': 's', 'd': _P('UTF8', tags=[['E', 'C', 3]]), 'opt': 'D', 'dv': 'é'}]),
+     [{}, {'a': True, 'b': 5}, {'a': False, 'c': '6162', 'n': ''}, {'b': 6, 'e': 1, 's': 'é'}, {'e': 0, 's': ''}]),
+    (_P('SETOF', of=_P('INTEGER')), [[1, 256, -1, 1], [255, 256, 65536, 0], [], [3, 2, 1, 2, 3]]),
+    (_P('SETOF', of=_P('OCTETSTRING')), [['00', '', '0000', 'ff'], ['61', '6161', '61']]),
+    (_P('SET', fields=[{'n': 'z', 'd': _P('INTEGER', tags=[['I', 'C', 2]]), 'opt': 'R'},
+                       {'n': 'y', 'd': _P('OCTETSTRING', tags=[['E', 'A', 1]]), 'opt': 'O'},
+                       {'n': 'x', 'd': _P('BOOLEAN'), 'opt': 'R'},
+                       {'n': 'w', 'd': _P('UTF8', tags=[['I', 'P', 0]]), 'opt': 'D', 'dv': 'w'}]),
+     [{'z': 1, 'x': True}, {'z': 1, 'y': '00', 'x': False, 'w': 'w'}, {'z': -1, 'x': True, 'w': 'v'}]),
+]
+
+
+def _gen_catalogue(r):
+    desc, values = r.choice(CATALOGUE)
+    reps = []
+    routes = ['canonical', 'permuted', 'permuted', 'defaults-explicit', 'defaults-implicit', 'native-args',
+              'decoded:ber', 'decoded:ber-indef', 'decoded:der', 'clone']
+    for i in range(r.randrange(2, 6)):
+        rep = {'route': r.choice(routes), 'perm': r.randrange(1 << 30),
+               'reads': [[r.choice(READS), r.randrange(4)] for _ in range(r.choice([0, 0, 1, 3]))]}
+        if rep['route'] == 'clone':
+            rep['of'] = r.choice(['canonical', 'permuted'])
+        reps.append(rep)
+    if all(x['route'] == reps[0]['route'] for x in reps):
+        reps[0]['route'] = 'canonical'
+        reps[-1]['route'] = 'permuted'
+    return {'check': ID, 'desc': copy.deepcopy(desc), 'value': copy.deepcopy(r.choice(values)), 'replicas': reps,
+            'catalogue': True}
 
 
 def gen_plan(r, index, tier):
+    if r.random() < 0.15:
+        return _gen_catalogue(r)
     w, cfg = common.gen_stream_workload(r, max_values=1, small=r.random() < 0.5, force_codec='ber', allow_f2=True,
                                         constructed_default=r.random() < 0.5)
     desc = w['desc']
@@ -207,14 +258,43 @@ def do_read(obj, op, arg):
         elif op == 'isValue':
             obj.isValue
         elif op == 'values':
-            if isinstance(obj, (univ.Sequence, univ.Set)):
-                for k_ in obj.keys():
+            if isinstance(obj, (univ.Sequence, univ.Set)) and not isinstance(obj, univ.Choice):
+                for v_ in obj.values():      # dict-style iteration: goes through __getitem__
                     pass
+        elif op == 'items':
+            if isinstance(obj, (univ.Sequence, univ.Set)) and not isinstance(obj, univ.Choice):
+                dict(obj.items())
+        elif op == 'getitem':
+            # subscript read of one component, present or not (a read in the eyes of the caller)
+            if isinstance(obj, (univ.Sequence, univ.Set)) and not isinstance(obj, univ.Choice) and len(obj.componentType):
+                obj[arg % len(obj.componentType)]
+            elif isinstance(obj, (univ.SequenceOf, univ.SetOf)) and len(obj):
+                obj[arg % len(obj)]
+        elif op == 'deep_read':
+            _deep_read(obj, 0)
     except Exception:
         # a read-only use may refuse (e.g. == on absent OPTIONAL, F9f); what matters here is
         # that it leaves the encodings alone
         return False
     return True
+
+
+def _deep_read(obj, depth):
+    """Walk the whole value with subscript reads, the way application code prints or inspects it."""
+    univ = U.p.univ
+    if depth > 6:
+        return
+    if isinstance(obj, univ.Choice):
+        try:
+            _deep_read(obj.getComponent(), depth + 1)
+        except Exception:
+            pass
+    elif isinstance(obj, (univ.Sequence, univ.Set)):
+        for i in range(len(obj.componentType)):
+            _deep_read(obj[i], depth + 1)
+    elif isinstance(obj, (univ.SequenceOf, univ.SetOf)):
+        for i in range(len(obj)):
+            _deep_read(obj[i], depth + 1)
 
 
 def execute(plan):
@@ -262,8 +342,6 @@ def execute(plan):
                     raise W.Violation('read-only-use-changed-encoding', replica=ri, route=rep['route'], op=op,
                                       codec='der' if d1 != d0 else 'cer',
                                       before=_h(d0 if d1 != d0 else c0), after=_h(d1 if d1 != d0 else c1))
-                if U.absval_norm(obj) != a0:
-                    raise W.Violation('read-only-use-changed-value', replica=ri, route=rep['route'], op=op)
             ders.append((ri, rep['route'], d0))
             cers.append((ri, rep['route'], c0))
             objs.append(obj)
